@@ -10,7 +10,8 @@ EXPLANATION = (
     "n_frac == 0; int()/float()/bool() delegate; raw() returns the stored code; uraw() normalises to ite(code < 0, 2^n_word + code, code); the conversion factor is "
     "2^n_frac on all branches (C01.R3). Residual: float equality of values beyond 2^53 (outside the quantifier)."
     ' Added after the third round of seeded changes: the value type get_val() casts to is never a narrow NumPy dtype (C01.R6).'
-    ' Added after the fourth round of seeded changes: C20.R8 objects carry only the documented attributes and no function writes module-level containers (no caches / memos that go stale) (a memoised get_val() goes stale when codes change through a view).')
+    ' Added after the fourth round of seeded changes: C20.R8 objects carry only the documented attributes and no function writes module-level containers (no caches / memos that go stale) (a memoised get_val() goes stale when codes change through a view).'
+    " Added after the fifth round of seeded changes: the compared values are not re-typed before the comparison (no astype to the other operand's dtype); constructor state (C20.R2); C20.R8 also forbids mutable default arguments and private attributes hung on operands (x._cache, x.__dict__[...]).")
 ASSUMPTIONS = ["Python // floors; / on int64 and a power of two is exact below 2^53"]
 TRUSTED = ["CPython ast", "fxlint term normaliser"]
 
